@@ -641,12 +641,9 @@ class C14(Prop):
         "model: arccos written as 2*atan(sqrt((1-x)/(1+x))) (equal to acos on (-1,1]); np.clip of the cosine is the "
         "identity on the reals (Cauchy-Schwarz) and is not modelled; numpy float arithmetic modelled as real arithmetic",
     ]
-    partial = [
-        "C14_renumber_quad_partial: quadrilateral renumbering proved for the generator 0->1->2->3->0 under the "
-        "hypothesis that the corner normals at corners 0 and 1 are positive multiples of each other; missing: "
-        "deriving it from planarity+convexity for all corners and iterating to the four shifts "
-        "(full statement C14_renumber_quad_stmt)",
-    ]
+    # C14_renumber_quad is proved in full (all four cyclic renumberings of every planar convex quadrilateral);
+    # C14_stretch holds for every side table equal to the reference one up to side order / cycle start.
+    partial = []
 
     def __init__(self):
         self._tab = None
